@@ -40,6 +40,14 @@ pub fn job_c09(out_dir: &str, tier: &str, seed: u64) {
     ];
     let mut inputs = gen::corpus(&mut rng, if quick { 24 } else { 70 }, if quick { 800 } else { 20000 });
     for _ in 0..(if quick { 150 } else { 4000 }) { inputs.push(gen::random_bytes(&mut rng, 30)); }
+    // foreign content: tags the scanner hands to the lexer (integration points, font, unhashable names), text after them
+    for s in ["<svg><title>Hello, world</title><desc a=b>d</desc></svg>", "<svg><defs><linearGradient id=g x1=0><stop offset=1 /></linearGradient></defs>text</svg>",
+              "<math><mi mathvariant=normal>x</mi><mo>+</mo> text <annotation-xml encoding=text/html><b>y</b></annotation-xml> tail</math>",
+              "<svg><font color=red>a</font><font-face x=y>b</font-face><foreignObject width=1><p>para</p></foreignObject> t</svg>",
+              "<math><verylongmathname1 a=b>t</verylongmathname1><x-y c=d>u</x-y></math> after", "<svg><feGaussianBlur stdDeviation=2 /><custom-element attr='v'>t</custom-element></svg>"] {
+        inputs.push(s.as_bytes().to_vec());
+    }
+    for _ in 0..(if quick { 300 } else { 6000 }) { inputs.push(gen::foreign_doc(&mut rng, 8)); }
     let mut n = 0usize;
     for (ii, input) in inputs.iter().enumerate() {
         if input.is_empty() { continue; }
